@@ -169,6 +169,7 @@ func (e *Engine) runPath(h *ssa.Function, p Prefix, cfg RunConfig) (res *PathRes
 	e.journaling = true
 	e.pendingObs = e.pendingObs[:0]
 	e.poolItems = map[*Value][]Value{}
+	e.syncMaps = nil
 	e.poolVCs = map[*Value][]vclock{}
 	e.ptrIDs = nil
 	e.witnessCount = 0
